@@ -7,7 +7,7 @@ The same function is also run with the host in zones with DST (and odd offsets) 
 pinned clock: the duration of a pair of clock times must not depend on the zone or on today's date.
 Oracle: modular arithmetic on minutes, formatted H:MM:SS.
 """
-from mc.core import Res
+from mc.core import optimized_job as core_optimized_job, run_optimized as core_run_optimized, Res
 
 ID = "C14"
 LEVEL = "exploration"
@@ -36,7 +36,7 @@ def jobs(tier, seed):
     js = [{"lo": lo, "hi": lo + 30} for lo in range(0, 1440, 30)]
     for z, d in ZONE_DAYS:
         js.append({"zone": z, "date": d, "tier": tier})
-    return js
+    return core_optimized_job(js)
 
 
 def _pair(res, s, e, via, zone=None, date=None):
@@ -88,6 +88,10 @@ def zone_job(job, res):
 
 
 def run_job(job):
+    if job.get("part") == "optimized":
+        r0 = Res()
+        core_run_optimized(ID, job.get("tier", "quick"), r0)
+        return r0
     from aioswitcher.schedule.tools import calc_duration
 
     res = Res()
@@ -124,6 +128,10 @@ def _all_pairs(job, res, calc_duration):
 
 
 def replay(case):
+    if isinstance(case, dict) and case.get("part") == "optimized":
+        r0 = Res()
+        core_run_optimized(ID, case.get("tier", "quick"), r0)
+        return r0.violations
     res = Res()
     if case.get("zone"):
         import datetime
